@@ -10,7 +10,7 @@ MCDims ==
     augpay |-> {"case", "uses-unknown", "empty", "same-name-twice", "nested-augment-target"},
     dev |-> {"leaf", "container", "absent", "rpc", "input", "case", "choice", "list", "leaf-list", "anyxml", "module-root"},
     devkind |-> {"add-default", "replace-type-nosuch", "delete-default", "bogus", "add-max-on-leaf", "replace-default-twice", "empty"},
-    top |-> {"unknown-keyword", "container", "two-modules-same-name", "empty-text", "submodule-only", "only-comment", "leaf"},
+    top |-> {"unknown-keyword", "container", "two-modules-same-name", "empty-text", "submodule-only", "submodule-with-identity", "only-comment", "leaf"},
     meta |-> {"Name", "Statement", "Parent", "Ext"},
     leafref |-> {"garbage", "up-out-of-tree", "self", "absent", "into-rpc", "no-path"},
     choice |-> {"default-missing", "duplicate-case", "case-named-like-leaf", "empty"},
